@@ -45,6 +45,7 @@ struct Responder {
 static Responder* g_responder = nullptr;
 static std::atomic<int> g_slow_ms{0};
 static std::atomic<long> g_handled{0};
+static std::atomic<bool> g_short_timeouts{false};   // the endpoint of this configuration has 1 s read time-outs (shutdown mode 6)
 // a request that stays in flight until the harness lets it go (shutdown mode 8), and a handler that shuts the endpoint down itself (mode 9)
 static std::mutex g_gate_m; static std::condition_variable g_gate_cv; static bool g_gate_open = false;
 static std::atomic<int> g_holding{0}, g_hold_timed_out{0}, g_quit_done{0}, g_quit_threw{0};
@@ -106,6 +107,9 @@ static void client_loop(int port, int id, int nreq, uint64_t seed, bool tolerate
         if (!m.complete) { if (!tolerateShutdown) viol("c09:no-response", "client " + std::to_string(id) + " request " + std::to_string(k) + " (" + method + " " + path + ") got no response: " + m.error, Json().str("config", cfg).str("request", method + " " + path).done()); st.incomplete++; return; }
         off += m.consumed;
         if (off > (1 << 20)) { buf.erase(0, off); off = 0; }
+        // with 1 s read time-outs configured, a client thread that the machine keeps off the CPU for a second between two requests is timed out like any
+        // idle connection: the 408 is the server's answer to the connection, not a wrong answer to this request (seen in a thorough run under a load of 60)
+        if (m.status == 408 && g_short_timeouts.load()) { count("keep_alive_clients_timed_out_by_the_server"); st.incomplete++; return; }
         bool good = m.status == expect && (expect != 200 || m.body == tag_of(method, path, body));
         if (good && expect == 405) { good = m.header("Allow").find("GET") != std::string::npos; }
         if (expect == 405 && m.status == 405) count("responses_405");
@@ -145,6 +149,7 @@ static void churn_loop(int port, int id, int nconn, uint64_t seed, bool tolerate
             lv::HttpMsg m = lv::read_response(c, buf, off, (int)(15000 * lv::load_factor()));
             if (!m.complete) { if (!tolerateShutdown) viol("c09:no-response", "churn client " + std::to_string(id) + " got no response: " + m.error, Json().str("config", cfg).done()); st.incomplete++; return; }
             off += m.consumed;
+            if (m.status == 408 && g_short_timeouts.load()) { count("keep_alive_clients_timed_out_by_the_server"); st.incomplete++; return; }
             if (m.status != 200 || m.body != tag_of("GET", path, "")) { viol("c09:wrong-response:tag", "churn client " + std::to_string(id) + ": status " + std::to_string(m.status) + " body '" + m.body.substr(0, 60) + "'", Json().str("config", cfg).done()); st.bad++; return; }
             st.ok++;
         }
@@ -191,6 +196,7 @@ static void run_config(long idx, int workers, int clients, int nreq, int shutdow
     auto* ep = new Http::Endpoint(Address(Ipv4::loopback(), Port(0)));
     auto opts = Http::Endpoint::options().threads(workers).flags(Tcp::Options::ReuseAddr);
     if (shutdownMode == 6) opts.headerTimeout(std::chrono::seconds(1)).bodyTimeout(std::chrono::seconds(1));
+    g_short_timeouts = shutdownMode == 6;
     ep->init(opts);
     ep->setHandler(Rest::Router::handler(router));
     ep->serveThreaded();
